@@ -110,7 +110,7 @@ Section F.
 
   Theorem expand_top_keeps e w m : P e (expand_top users glob e w m).
   Proof.
-    unfold expand_top. pose proof (proj1 (frame (4 * S (word_size w))) e w m) as H.
+    unfold expand_top. destruct (quoted_at_only e w m); [cbn [P]; apply keeps_refl|]. pose proof (proj1 (frame (4 * S (word_size w))) e w m) as H.
     destruct (expand users (4 * S (word_size w)) e w m) as [[e1 fields]|[e1 x]| |]; cbn [P] in *; try exact I; try exact H.
     destruct (mbit m mLiteral); [exact H|]. destruct (mbit m mPattern); [exact H|].
     match goal with |- P _ (match fold_left ?st ?l ?acc with _ => _ end) => destruct (fold_left st l acc) as [rv|[e' x]| |] eqn:EF end; cbn [P]; try exact I; [exact H|].
